@@ -122,7 +122,8 @@ const REF_NAMES: [&str; 2] = ["ref_a", "ref_b"];
 const TX_NAMES: [&str; 3] = ["swap", "settle", "claim"];
 const FIELD_NAMES: [&str; 7] = ["f_count", "f_owner", "f_data", "f_items", "f_table", "f_inner", "f_ok"];
 const CASE_NAMES: [&str; 6] = ["Open", "Close", "Cancel", "Update", "Init", "Halt"];
-const STRINGS: [&str; 6] = ["ABC", "MYTOKEN", "tx3", "hello world", "", "Ünïcode ✓"];
+// the tail looks like other encodings (hex literals, numbers): text stays text wherever it is written
+const STRINGS: [&str; 10] = ["ABC", "MYTOKEN", "tx3", "hello world", "", "Ünïcode ✓", "0xcafe", "0x", "0x00FF", "1234"];
 
 fn case_variant(name: &str, v: usize) -> String {
     match v {
@@ -361,6 +362,15 @@ impl<'t, 'c> Gen<'t, 'c> {
                     for f in 0..n_fields {
                         let ty = self.gen_field_ty(i, 0);
                         fields.push((FIELD_NAMES[f].to_string(), ty));
+                    }
+                    // sibling cases often share their fields (`Open { a, b }`, `Filled { a, b }`, `Cancelled { a }`):
+                    // the shape in which one case is built from a value of another with a spread
+                    if c > 0 && c < 8 && self.t.chance(1, 3) {
+                        let prev: &GCase = &cases[c - 1];
+                        if !prev.fields.is_empty() {
+                            let keep = 1 + self.t.pick(prev.fields.len());
+                            fields = prev.fields[..keep].to_vec();
+                        }
                     }
                     let cname = if record {
                         "Default".to_string()
@@ -1060,6 +1070,34 @@ impl<'t, 'c> Gen<'t, 'c> {
         }
         let cdef = &tdef.cases[case];
         let nf = cdef.fields.len();
+        // a case built from a value of a sibling case: the fields are taken over by position, the constructor
+        // index is the named case's
+        let siblings: Vec<usize> = (0..tdef.cases.len())
+            .filter(|c2| *c2 != case && nf > 0 && tdef.cases[*c2].fields.len() >= nf && (0..nf).all(|f| tdef.cases[*c2].fields[f].1 == cdef.fields[f].1))
+            .collect();
+        if self.feat.spread && !siblings.is_empty() && depth < 3 && self.t.chance(1, 2) {
+            self.mark("spread");
+            self.mark("spread_from_a_sibling_case");
+            let c2 = siblings[self.t.pick(siblings.len())];
+            let src_fields = tdef.cases[c2].fields.clone();
+            let mut full = vec![];
+            for (fi, (_, fty)) in src_fields.iter().enumerate() {
+                full.push((fi, self.gen_data(fty, depth + 2, locals_upto)));
+            }
+            let source = GExpr::Record { ty: ti, alias: None, case: c2, fields: full, spread: None };
+            // any subset of the fields stays explicit, the empty one included
+            let mut fields = vec![];
+            for fi in 0..nf {
+                if self.t.chance(1, 3) {
+                    let v = self.gen_data(&cdef.fields[fi].1, depth + 1, locals_upto);
+                    fields.push((fi, v));
+                }
+            }
+            if fields.is_empty() {
+                self.mark("spread_without_explicit_fields");
+            }
+            return GExpr::Record { ty: ti, alias: None, case, fields, spread: Some(Box::new(source)) };
+        }
         // spread is possible when the type has one case and a whole-record source exists
         let can_spread = self.feat.spread && tdef.cases.len() == 1 && nf > 0 && depth < 3;
         let spread_src: Option<GExpr> = if can_spread && self.t.chance(2, 5) {
@@ -1612,12 +1650,28 @@ impl<'t, 'c> Gen<'t, 'c> {
         if self.feat.witnesses {
             if self.t.chance(1, 4) {
                 self.mark("plutus_witness");
-                let version = 1 + self.t.pick(3) as i64;
-                self.cur.cardano.push(GDirective::PlutusWitness {
-                    version,
-                    script: fixed_bytes(self.t.pick(100) as u8, 4 + self.t.pick(20)),
-                    version_first: self.t.flag(),
-                });
+                // one to three scripts; versions may coincide, and a script may be attached twice
+                let n = 1 + self.t.weighted(&[4, 2, 1]);
+                if n > 1 {
+                    self.mark("several_plutus_witnesses");
+                }
+                let mut prev: Option<(i64, Vec<u8>)> = None;
+                for _ in 0..n {
+                    let mut version = 1 + self.t.pick(3) as i64;
+                    let mut script = fixed_bytes(self.t.pick(100) as u8, 4 + self.t.pick(20));
+                    if let Some((v, sc)) = &prev {
+                        if self.t.flag() {
+                            version = *v;
+                        }
+                        if self.t.chance(1, 6) {
+                            version = *v;
+                            script = sc.clone();
+                            self.mark("plutus_witness_attached_twice");
+                        }
+                    }
+                    prev = Some((version, script.clone()));
+                    self.cur.cardano.push(GDirective::PlutusWitness { version, script, version_first: self.t.flag() });
+                }
             }
             if self.t.chance(1, 5) {
                 self.mark("native_witness");
